@@ -71,8 +71,37 @@ func main() {
 	out.Def("needsBuildingChecksMetadata", "Bool", xlib.LeanBool(metadataChecked))
 	out.Def("needsBuildingFinal", "String", xlib.LeanStr(final))
 
-	// ---- moveOutput: equal hashes ⇒ return false (keep) before anything is removed
+	// ---- moveOutput: equal hashes ⇒ return false (keep) before anything is removed.
+	// Roles, not names: which local holds the hash of which PARAMETER (tmpOutput = 3rd, realOutput = 4th parameter),
+	// found through the `x, err := ….Hash(<param>, …)` definitions.
 	mo := bs.Func("moveOutput")
+	var params []string
+	for _, fl := range mo.Type.Params.List {
+		for _, nm := range fl.Names {
+			params = append(params, nm.Name)
+		}
+	}
+	hashOf := map[string]int{} // local variable -> index of the parameter it is the hash of
+	ast.Inspect(mo.Body, func(n ast.Node) bool {
+		as, ok := n.(*ast.AssignStmt)
+		if !ok || len(as.Rhs) != 1 || len(as.Lhs) < 1 {
+			return true
+		}
+		call, ok := as.Rhs[0].(*ast.CallExpr)
+		if !ok || !strings.HasSuffix(bs.Src(call.Fun), ".Hash") || len(call.Args) < 1 {
+			return true
+		}
+		if id, ok := call.Args[0].(*ast.Ident); ok {
+			for i, p := range params {
+				if p == id.Name {
+					if lhs, ok := as.Lhs[0].(*ast.Ident); ok {
+						hashOf[lhs.Name] = i
+					}
+				}
+			}
+		}
+		return true
+	})
 	keep := false
 	removeSeen := false
 	ast.Inspect(mo.Body, func(n ast.Node) bool {
@@ -80,13 +109,12 @@ func main() {
 			removeSeen = true
 		}
 		if is, ok := n.(*ast.IfStmt); ok {
-			if call, ok := is.Cond.(*ast.CallExpr); ok && bs.Src(call.Fun) == "bytes.Equal" && !removeSeen {
-				a, b := bs.Src(call.Args[0]), bs.Src(call.Args[1])
-				if (strings.Contains(strings.ToLower(a), "old") && strings.Contains(strings.ToLower(b), "new")) ||
-					(strings.Contains(strings.ToLower(a), "new") && strings.Contains(strings.ToLower(b), "old")) {
-					if returnsBool(bs, is.Body, "false") {
-						keep = true
-					}
+			if call, ok := is.Cond.(*ast.CallExpr); ok && bs.Src(call.Fun) == "bytes.Equal" && !removeSeen && len(call.Args) == 2 {
+				a, aok := hashOf[bs.Src(call.Args[0])]
+				b, bok := hashOf[bs.Src(call.Args[1])]
+				// the two operands are the hashes of two DIFFERENT path parameters (new temp output vs existing output)
+				if aok && bok && a != b && returnsBool(bs, is.Body, "false") {
+					keep = true
 				}
 			}
 		}
